@@ -140,3 +140,100 @@ def describe_arg_sets():
             d["details"] = {"arith": "op=+", "decider": "cond=>", "const": "value=5", "memory": "cell"}[op]
         out.append({"debug_info": {k: v for k, v in d.items() if v is not None}})
     return out
+
+
+# =================================================================================================
+# EntityPlacer._build_debug_info (C20: "the combinator producing it carries the variable's name and source line"): the description data of a
+# placement names the DECLARED name of a user-declared node, else the usage entry's label, else the node's own label, else its id; the line is the
+# source node's (the usage entry's first), else the line of the expression context; the signal is the resolved signal of the usage entry, else the
+# node's output type; operation and details say what the node is (a declared constant is an "(input)"); absent facts are left out.
+# Evaluated on the REAL method over an enumerated box: bounded.
+# =================================================================================================
+BDQ = EP + "_build_debug_info"
+
+
+def _bdi_post(a, res):
+    sc = a.self._scenario
+    return res == sc["expected"]
+
+
+build_debug_info = Contract(qualname=BDQ, params={"self": ty.TOpaque("placer"), "op": ty.TOpaque("node"), "role_override": ty.TOpaque("role")},
+                            ensures=[("name: declared name > usage label > node label > id; line: source node (usage first) > expression context; signal: resolved > output type; "
+                                      "operation / details by node kind; absent facts left out", _bdi_post)],
+                            verify=False, properties=("C20",), note="evaluated on the real method over an enumerated box (bounded stand-in)")
+CONTRACTS.append(build_debug_info)
+
+
+def build_debug_info_arg_sets():
+    from dsl_compiler.src.ir.nodes import IRArith, IRConst, IRDecider, IRMemCreate
+    from dsl_compiler.src.layout.entity_placer import EntityPlacer
+    from dsl_compiler.src.layout.signal_analyzer import SignalUsageEntry
+
+    class _Ast:
+        def __init__(self, line, source_file=None):
+            self.line, self.source_file = line, source_file
+
+    out = []
+    kinds = {"const": lambda: IRConst("n1", "signal-A"), "arith": lambda: IRArith("n1", "signal-A"), "decider": lambda: IRDecider("n1", "signal-A"),
+             "memory": lambda: IRMemCreate("n1", "signal-A")}
+    for kind, mk in kinds.items():
+        for has_usage, usage_label, usage_line, usage_resolved in itertools.product((False, True), (None, "from_usage"), (None, 7), (None, "signal-R")):
+            if not has_usage and (usage_label or usage_line or usage_resolved):
+                continue
+            for op_label, op_line, declared, ctx, role in itertools.product((None, "from_node"), (None, 0, 12), (None, "", "declared"), (False, True), (None, "output")):
+                op = mk()
+                if kind == "const":
+                    op.value = 42
+                if kind == "arith":
+                    op.op = "+"
+                if kind == "decider":
+                    op.test_op = ">"
+                if op_label:
+                    op.debug_label = op_label
+                op.source_ast = _Ast(op_line, "f.facto" if op_line else None) if op_line is not None else None
+                if declared is not None:
+                    op.debug_metadata["user_declared"] = True
+                    if declared:
+                        op.debug_metadata["declared_name"] = declared
+                if ctx:
+                    op.debug_metadata.update({"expr_context_target": "target", "expr_context_line": 33, "expr_context_file": "ctx.facto"})
+                ep = object.__new__(EntityPlacer)
+                ep.signal_usage = {}
+                if has_usage:
+                    u = SignalUsageEntry(signal_id="n1")
+                    u.debug_label = usage_label
+                    u.source_ast = _Ast(usage_line) if usage_line else None
+                    u.resolved_signal_name = usage_resolved
+                    ep.signal_usage[op.node_id] = u
+                # ---- specification
+                exp = {}
+                exp["variable"] = declared if declared else (usage_label or op_label or op.node_id)
+                src_line = usage_line if usage_line else (op_line if (not usage_line and op_line) else None)
+                src_file = "f.facto" if (not usage_line and op_line) else None
+                if hasattr(op, "source_ast") is False:
+                    src_line = usage_line
+                line = src_line or (33 if ctx else None)
+                sfile = src_file or ("ctx.facto" if ctx else None)
+                if ctx:
+                    exp["expr_context"] = "target"
+                if line:
+                    exp["line"] = line
+                if sfile:
+                    exp["source_file"] = sfile
+                if usage_resolved or getattr(op, "output_type", None):
+                    exp["signal_type"] = usage_resolved or op.output_type
+                if declared is not None:
+                    exp["user_declared"] = True
+                if kind == "const":
+                    exp["operation"], exp["details"] = "const", "value=42" + (" (input)" if declared is not None else "")
+                elif kind == "arith":
+                    exp["operation"], exp["details"] = "arith", "op=+"
+                elif kind == "decider":
+                    exp["operation"], exp["details"] = "decider", "cond=>"
+                else:
+                    exp["operation"], exp["details"] = "memory", "decl"
+                if role:
+                    exp["role"] = role
+                ep._scenario = {"expected": exp}
+                out.append({"self": ep, "op": op, "role_override": role})
+    return out
